@@ -181,11 +181,25 @@ def run_random(ctx, desc):
             st.via = "notify"                   # exceptions on the receive path must be seen, not swallowed
         ops = []
         case = {"workload": "random", "history": f"{desc['cs']}-{h}", "ops": ops}
+        hb_running = h % 2 == 0
+        if hb_running:
+            rig.local.sdo[0x1017].raw = 100          # the slave produces heartbeats; one period elapses on every "tick"
+            ops.append(("slave-heartbeat-time", 100))
         for step in range(desc["length"]):
             r = rng.random()
             mark = len(rig.bus.log)
             try:
-                if r < 0.2:
+                if r < 0.1 and hb_running:
+                    ops.append(("tick",))
+                    rig.bus.tick()
+                    sent = [f for f in list(rig.bus.log)[mark:] if f.src == "slave" and f.can_id == 0x700 + K]
+                    want = bytes([rig.model["slave"]])
+                    if len(sent) != 1 or sent[0].data != want:
+                        ctx.violation("heartbeat-does-not-carry-the-slave-state", f"one heartbeat period sent {[f.brief() for f in sent]}, the slave is in state code {rig.model['slave']}", dict(case, ops=ops[-10:]))
+                    for f in sent:
+                        rig.hear_heartbeat("slave", K, f.data[0] if f.data else 0)
+                    ctx.case(("heartbeat-tick", rig.model["slave"]))
+                elif r < 0.2:
                     cs = rng.choice(sorted(CMD_STATE) + UNDEFINED)
                     who = rng.choice(["master", "master_other", "broadcast", "observer"])
                     ops.append(("api-command", who, cs))
@@ -258,6 +272,24 @@ def run_random(ctx, desc):
         ctx.count("nmt_frames_validated", rig.nmt_frames)
         if len(ctx.samples) < 2:
             ctx.sample({"workload": "random", "ops": ops[:12]})
+        rig.bus.close()
+    # a remote node whose id comes from the object dictionary addresses its commands to that id
+    import canopen
+    for arg in (0, None):
+        rig = Rig()
+        od = od_factory()
+        od.node_id = 21
+        try:
+            node = canopen.RemoteNode(arg, od)
+            rig.mnet.add_node(node)
+            mark = len(rig.bus.log)
+            node.nmt.state = "OPERATIONAL"
+            sent = [f for f in list(rig.bus.log)[mark:] if f.can_id == 0]
+            ctx.case(("node-id-from-od", repr(arg)))
+            if node.id != 21 or len(sent) != 1 or sent[0].data != bytes([1, 21]):
+                ctx.violation("nmt-command-frame:id-from-od", f"RemoteNode({arg!r}, od with node id 21): id {node.id}, NMT frames {[f.brief() for f in sent]}", {"workload": "id-from-od", "arg": repr(arg)})
+        except Exception as exc:  # noqa: BLE001
+            ctx.violation(f"nmt-operation-raised:{type(exc).__name__}:id-from-od", f"RemoteNode({arg!r}, od with node id 21) / state assignment raised {exc!r}", {"workload": "id-from-od", "arg": repr(arg)})
         rig.bus.close()
     # make sure every heartbeat byte was exercised at least once per shard
     rig = Rig()
